@@ -152,6 +152,9 @@ impl<W, R, T> Runtime<W, R, T> {
                 if usize::from(stat.size) + size > size_limit {
                     return Err(RuntimeViolation::AllocationLimitReached);
                 }
+            } else {
+                // a size too large to be represented cannot fit under the limit either
+                return Err(RuntimeViolation::AllocationLimitReached);
             }
         }
         Ok(())
